@@ -27,6 +27,9 @@ enum Phase {
 struct SlotState {
     phase: Phase,
     released: bool,
+    /// the thread has noticed its release and is running again (handshake: without it a thread that
+    /// is merely slow to wake up under load would be mistaken for one blocked in a lock)
+    acked: bool,
     epoch: u64,
     result: String,
     panicked: bool,
@@ -54,6 +57,8 @@ fn install_hook() {
                 st = slot.cv.wait(st).unwrap();
             }
             st.phase = Phase::Running;
+            st.acked = true;
+            slot.cv.notify_all();
         }
     })));
 }
@@ -169,7 +174,7 @@ pub fn run_line(line: &str, out: &mut String) {
     let carried: Arc<Mutex<Vec<Carry>>> = Arc::new(Mutex::new(vec![]));
     for (t, op) in ops.iter().enumerate() {
         let slot = Arc::new(Slot {
-            m: Mutex::new(SlotState { phase: Phase::NotStarted, released: false, epoch: 0, result: String::new(), panicked: false }),
+            m: Mutex::new(SlotState { phase: Phase::NotStarted, released: false, acked: false, epoch: 0, result: String::new(), panicked: false }),
             cv: Condvar::new(),
         });
         slots.push(slot.clone());
@@ -189,6 +194,8 @@ pub fn run_line(line: &str, out: &mut String) {
                     st = slot.cv.wait(st).unwrap();
                 }
                 st.phase = Phase::Running;
+                st.acked = true;
+                slot.cv.notify_all();
             }
             let res = catch(move || -> (String, Carry) {
                 match name.as_str() {
@@ -257,8 +264,19 @@ pub fn run_line(line: &str, out: &mut String) {
         }
         {
             let mut st = slot.m.lock().unwrap();
+            st.acked = false;
             st.released = true;
             slot.cv.notify_all();
+            // wait until the thread has actually resumed (or already reached its next point)
+            let deadline = Instant::now() + LONG;
+            while !st.acked && st.epoch == epoch0 {
+                let now = Instant::now();
+                if now >= deadline {
+                    break;
+                }
+                let (g, _) = slot.cv.wait_timeout(st, deadline - now).unwrap();
+                st = g;
+            }
         }
         let pred_blocked = pred.map_or(false, |p| p.starts_with(&format!("{t}:blocked")));
         let arrived = wait_epoch(slot, epoch0, if pred_blocked { SHORT } else { LONG });
